@@ -30,22 +30,24 @@ theorem generation_monotone (cfg : Cfg) (w : World) (ops : List Op) (f : Nat) :
 
 /-- … and strictly increases at every schedule (unless the CANCELED guard swallows the call entirely). -/
 theorem generation_strictly_increases (cfg : Cfg) (hb : cfg.scheduleBumps = true) (w : World) (f : Nat) (v : Val) (e : Bool)
-    (rg nb : Nat) (src : Src) :
-    schedule cfg w f v e rg nb src = w ∨ ((schedule cfg w f v e rg nb src).fibers f).schedId = (w.fibers f).schedId + 1 := by
-  rcases schedule_bumps cfg hb w f v e rg nb src with h | h
+    (rg nb : Nat) (src : Src) (re : Nat) :
+    schedule cfg w f v e rg nb src re = w ∨ ((schedule cfg w f v e rg nb src re).fibers f).schedId = (w.fibers f).schedId + 1 := by
+  rcases schedule_bumps cfg hb w f v e rg nb src re with h | h
   · exact Or.inl h
   · exact Or.inr h.1
 
 /-- registrations store the generation current at their creation -/
 theorem registration_records_generation (cfg : Cfg) (w : World) (f c k d : Nat) (ch : Bool) (kind : TKind) :
-    ((w.chans c).items = [] → ∃ p ∈ ((chanPop cfg w f c ch).1.chans c).rp, p.fiber = f ∧ p.schedId = (w.fibers f).schedId) ∧
-    (∃ t ∈ (addTimer cfg w f kind d).timers, t.fiber = f ∧ t.schedId = (w.fibers f).schedId ∧ t.start = w.now) ∧
-    ((procWait w f k).procs k = some (f, (w.fibers f).schedId)) := by
+    ((w.chans c).items = [] → ∃ p ∈ ((chanPop cfg w f c ch).1.chans c).rp,
+        p.fiber = f ∧ p.schedId = (w.fibers f).schedId ∧ p.epoch = (w.fibers f).epoch) ∧
+    (∃ t ∈ (addTimer cfg w f kind d).timers, t.fiber = f ∧ t.schedId = (w.fibers f).schedId ∧ t.start = w.now ∧
+        t.epoch = (w.fibers f).epoch) ∧
+    ((procWait w f k).procs k = some (f, (w.fibers f).schedId) ∧ (procWait w f k).procEpoch k = (w.fibers f).epoch) := by
   refine ⟨?_, ?_, ?_⟩
   · intro hi
-    refine ⟨{ fiber := f, schedId := (w.fibers f).schedId, choice := ch }, ?_, rfl, rfl⟩
+    refine ⟨{ fiber := f, schedId := (w.fibers f).schedId, choice := ch, epoch := (w.fibers f).epoch }, ?_, rfl, rfl, rfl⟩
     simp [chanPop, hi]
-  · refine ⟨_, (mem_insertTimer _ _ _).mpr (Or.inl rfl), rfl, rfl, rfl⟩
+  · refine ⟨_, (mem_insertTimer _ _ _).mpr (Or.inl rfl), rfl, rfl, rfl, rfl⟩
   · simp [procWait]
 
 /-- once a registration of generation `g` is stale it stays stale: forever, under any configuration -/
@@ -92,7 +94,9 @@ theorem stale_inert (cfg : Cfg) (hc : cfg.allChecked = true) (w : World) :
     | timeout => simp [htc, hst]
     | sleep => simp [htc, hst]
   · intro k st f g hp hst
-    simp [procExit, hp, hpc, hst]
+    have hpe := allChecked_procErrCheck hc
+    simp only [procExit, hp, hpc, hpe, hst]
+    split <;> (try split) <;> simp
   · intro s r v e f hs hl
     simp [streamEvent, hs, hl]
 
@@ -101,7 +105,8 @@ theorem listener_detached_on_resume (cfg : Cfg) (hc : cfg.allChecked = true) (w 
     (hq : w.queue = t :: q) (hcur : t.expected = (w.fibers t.fiber).schedId) :
     ((runTask cfg w).fibers t.fiber).listener = none := by
   obtain ⟨hrf, -, -, -, -, -, -, hdr, -, -, -⟩ := allChecked_fields hc
-  simp [runTask, hq, hrf, hdr, hcur, asyncEnd_listener]
+  have hdf := allChecked_didResumeFirst hc
+  simp [runTask, hq, hrf, hdr, hdf, hcur, asyncEnd_listener]
 
 /-- ★ an item offered on a channel is not consumed by waiters that are no longer there: if every pending reader is stale,
 the give behaves as on a channel without readers — the item is appended to `items`, nobody is scheduled, no fiber changes. -/
